@@ -133,7 +133,14 @@ def close(proto, reason=None):
     proto.connectionLost(reason)
 
 
-def lost_reason():
+def lost_reason(kind=0):
+    """Why a connection ended: reset / lost (0), closed cleanly by the peer (1), aborted locally (2)."""
+    from twisted.internet.error import ConnectionAborted
+    kind %= 3
+    if kind == 1:
+        return Failure(ConnectionDone('harness closed the link'))
+    if kind == 2:
+        return Failure(ConnectionAborted('harness aborted the link'))
     return Failure(ConnectionLost('harness cut the link'))
 
 
@@ -302,7 +309,11 @@ class RawClient:
     def disconnect(self):
         if self.connected:
             self.connected = False
-            close(self.proto)
+            # connections end in more ways than the clean close: reset by the peer, aborted locally
+            from twisted.internet.error import ConnectionAborted
+            k = (self.serial + len(self.rig.clients)) % 3
+            reason = [None, lost_reason(), Failure(ConnectionAborted())][k]
+            close(self.proto, reason)
 
 
 class BusRig:
